@@ -131,6 +131,47 @@ def cases(tier, seed, prop):
         for c in out:
             c['s'] = TEXT_TPL[c['tpl']] % c['w'] if 'w' in c else WRAP_TPL[c['wrap']][0]
         return out
+    elif prop == 'C13':
+        n = 3000 if tier == 'quick' else 40000
+        o13 = dict(base_opt('C04'), names=['div', 'p', 'span', 'ul', 'li', 'em', 'b', 'hr', 'br', 'strong', 'section', 'x', 'table', 'tr', 'td'], p_attr=.5, p_text=.4,
+                   attr_pool=[('attr', 'title', None, None), ('attr', 'lang', None, None), ('attr', 'data-x', 'y', 'raw'), ('attr', 'title', '${1}', 'dq'), ('attr', 'alt', '${2:ph} ${1}', 'dq'),
+                              ('attr', 'rel', 'a${3}b', 'dq'), ('attr', 'href', '', 'dq')],
+                   text_pool=['txt', '${1}', '${1:one} and ${2}', 'l1\nl2', '${2:b}${1:a}', 'a ${0} z', 'x ${3:c}', 'foo\nbar ${1}'])
+        for _ in range(n):
+            c = {}
+            r = rnd.random()
+            if r < .55: c['syntax'] = rnd.choice(['html', 'xml', 'jsx', 'vue', 'xsl', 'svelte'])
+            elif r < .85: c['syntax'] = rnd.choice(['haml', 'pug', 'slim'])
+            o = {}
+            if rnd.random() < .5: o['output.newline'] = rnd.choice(['\n', '\r\n', '\r'])
+            if rnd.random() < .5: o['output.indent'] = rnd.choice(['\t', '  ', '    ', ''])
+            if rnd.random() < .4: o['output.baseIndent'] = rnd.choice(['', '  ', '\t'])
+            if rnd.random() < .2: o['output.format'] = False
+            if rnd.random() < .2: o['output.formatLeafNode'] = True
+            if rnd.random() < .2: o['output.inlineBreak'] = rnd.choice([0, 1, 2])
+            if o: c['options'] = o
+            seq = mk.gen_seq(rnd, o13, [rnd.randint(1, 7)], 2)
+            tidy_C13(seq)
+            out.append({'seq': seq, 'c': c, 'g': 'random'})
+    elif prop == 'C14':
+        out = cases_C14(tier, rnd)
+        return out
+    elif prop in ('C12', 'C15'):
+        n = 3000 if tier == 'quick' else 40000
+        names = ['div', 'p', 'span', 'ul', 'li', 'em', 'b', 'hr', 'br', 'strong', 'section', 'x', 'table', 'tr', 'td', 'article', 'body', 'i', 'h1', 'nav']
+        o12 = dict(base_opt('C04'), names=names, p_attr=.3, p_text=.35, p_noname=.1,
+                   attr_pool=[('attr', 'title', 'v', 'raw'), ('attr', 'data-x', 'a b', 'dq'), ('attr', 'lang', None, None), ('attr', 'rel', 'e', 'expr')] if prop == 'C12' else [('attr', 'title', 'v', 'raw'), ('attr', 'data-x', 'a b', 'dq')],
+                   text_pool=['txt', 'a b', 'l1\nl2', 'one\ntwo\nthree', 'x', ' sp '] if prop == 'C12' else ['txt', 'a b', 'l1\nl2', 'one\ntwo\nthree', 'x'])
+        for _ in range(n):
+            seq = mk.gen_seq(rnd, o12, [rnd.randint(1, 8)], 2)
+            tidy_C13(seq)
+            if prop == 'C12':
+                c = {'syntax': rnd.choice(['html', 'html', 'xml', 'xsl', 'jsx', 'vue', 'svelte'])}
+                out.append({'seq': seq, 'c': dict(c, options=rand_layout(rnd)), 'alt': dict(c, options=rand_layout(rnd)), 'g': 'random'})
+            else:
+                c = {'syntax': rnd.choice(['haml', 'pug', 'slim'])}
+                if rnd.random() < .5: c['options'] = {'output.indent': rnd.choice(['\t', '  ', '    ', ' '])}
+                out.append({'seq': seq, 'c': c, 'g': 'random'})
     for c in out: c['s'] = mk.print_seq(c['seq'])
     return out
 
@@ -379,10 +420,272 @@ def oracle_C04(case, o):
     return oracle_C04_text(case, o) if 'w' in case else oracle_C04_wrap(case, o)
 
 
-ORACLES = {'C01': oracle_C01, 'C02': oracle_C02, 'C03': oracle_C03, 'C04': oracle_C04}
+# ------------------------------------------------------------------------------------------------- C13
+def tidy_C13(seq):
+    """domain of the numbering clause: attribute names distinct per element; explicit fields in text only on leaves (the statement
+    speaks of values and of empty leaf content; a field-bearing text in front of children is formatted as a snippet)"""
+    for item, op in seq:
+        if item['k'] == 'group': tidy_C13(item['body']); continue
+        seen = set(); ms = []
+        for m in item['mentions']:
+            key = m[1] if m[0] == 'attr' else m[0] + str(len(ms))
+            if key in seen: continue
+            seen.add(key); ms.append(m)
+        item['mentions'] = ms
+        if op == '>' and item['text'] and '${' in item['text']: item['text'] = 'txt'
+
+
+IDX_RE = re.compile(r'\$\{(\d+)')
+
+
+def value_indices(v):
+    """indices of the explicit fields of one value, in order; [] = no field; None value / empty value = caret"""
+    return [int(x) for x in IDX_RE.findall(v)]
+
+
+def expected_fields(forest, indent_syntax, acc, base):
+    """tabstop indices in document order, by the statement: every empty attribute value and the empty content of every leaf that is
+    not self-closed gets its own tabstop; an explicit value with indices I at running base b emits b+i and advances b by max(I)+1"""
+    for el in forest:
+        seen = []
+        for m in el['mentions']:
+            if m[0] == 'attr' and m[1] not in seen:
+                seen.append(m[1])
+                v = m[2]
+                if not v: acc.append(base[0]); base[0] += 1
+                else:
+                    I = value_indices(v)
+                    for i in I: acc.append(base[0] + i)
+                    if I: base[0] += max(I) + 1
+        void = (el['name'] or '').lower() in mk.VOID or el['slash']
+        if el['text'] is not None and el['text'] != '':
+            I = value_indices(el['text'])
+            for i in I: acc.append(base[0] + i)
+            if I: base[0] += max(I) + 1
+        elif not el['kids'] and not void:
+            acc.append(base[0]); base[0] += 1
+        expected_fields(el['kids'], indent_syntax, acc, base)
+    return acc
+
+
+def run_C13(case):
+    """expand with recording callbacks; returns (outcome, calls)"""
+    from emmet import expand
+    from emmet.scanner import ScannerException
+    from emmet.token_scanner import TokenScannerException
+    calls = []
+
+    def rec_field(index, placeholder, **kw):
+        r = field(index, placeholder); calls.append(('field', r, kw.get('offset'), kw.get('line'), kw.get('column'))); return r
+
+    def rec_text(text, **kw):
+        calls.append(('text', text, kw.get('offset'), kw.get('line'), kw.get('column'))); return text
+    c = mkcfg(case['c']); c['options']['output.field'] = rec_field; c['options']['output.text'] = rec_text
+    try: return ('ok', expand(case['s'], c)), calls
+    except ScannerException as e: return ('scanner', e.pos), calls
+    except TokenScannerException as e: return ('token', e.pos), calls
+    except RecursionError: raise
+    except Exception as e: return ('internal', type(e).__name__), calls
+
+
+def oracle_C13(case, o, calls):
+    from emmet.config import Config
+    if o[0] != 'ok': return ['no-output| expand(%r) -> %s %s' % (case['s'], o[0], o[1])]
+    final = o[1]; v = []
+    opt = Config(mkcfg(case['c'])).options
+    nl = opt.get('output.newline')
+    for kind, piece, off, line, col in calls:
+        if not isinstance(off, int) or final[off:off + len(piece)] != piece:
+            v.append('offset| %s callback: piece %r reported at offset %r, but the result has %r there' % (kind, piece, off, final[off:off + len(piece)] if isinstance(off, int) else None)); break
+        eline = final.count(nl, 0, off) if nl else 0
+        last = final.rfind(nl, 0, off) if nl else -1
+        ecol = off - (last + len(nl)) if last >= 0 else off
+        if (line, col) != (eline, ecol):
+            v.append('line-column| %s callback for %r at offset %d: reported line %r column %r, it ends up at line %d column %d' % (kind, piece, off, line, col, eline, ecol)); break
+    forest = mk.unroll(mk.flat(case['seq']))
+    want = expected_fields(forest, False, [], [1])
+    got = [int(x) for x in IDX_RE.findall(final)]
+    if got != want: v.append('numbering| expand(%r, %r): tabstop indices in document order %r, expected %r' % (case['s'], case['c'], got, want))
+    return v
+
+
+# ------------------------------------------------------------------------------------------------- C14
+SIMPLE_DEF = re.compile(r'^[A-Za-z][\w:-]*(\[[^\]\[{}()]*\])?$')
+CHAIN_DEF = re.compile(r'^[A-Za-z][\w:.#-]*(\[[^\]\[{}()]*\])?(>[A-Za-z][\w:.#-]*(\[[^\]\[{}()]*\])?)*$')
+
+
+def cases_C14(tier, rnd):
+    import sys, vlib
+    if vlib.REPO not in sys.path: sys.path.insert(0, vlib.REPO)
+    from emmet.snippets import markup_snippets, xsl_snippets, pug_snippets
+    out = []
+    tables = [('html', markup_snippets), ('xsl', dict(markup_snippets, **xsl_snippets)), ('pug', dict(markup_snippets, **pug_snippets))]
+    for sy, tbl in tables:
+        for k, v in tbl.items():
+            for rev in (False, True):
+                c = {'syntax': sy}
+                if rev: c['options'] = {'output.reverseAttributes': True}
+                out.append({'s': k, 'alt': v, 'c': c, 'g': 'builtin'})
+                if sy == 'html' or k not in markup_snippets:
+                    if SIMPLE_DEF.match(v) and not rev:
+                        for sfx in ('.c', '[x=y]', '#i.c[x=y]', '{t}'):
+                            out.append({'s': k + sfx, 'alt': v + sfx, 'c': c, 'g': 'applied'})
+                        out.append({'s': k + '*2', 'alt': '(' + v + ')*2', 'c': c, 'g': 'applied'})
+                    if CHAIN_DEF.match(v):
+                        out.append({'s': k + '>b', 'alt': v + '>b', 'c': c, 'g': 'children'})
+                        out.append({'s': 'p>' + k + '>b+i', 'alt': 'p>(' + v + '>b+i)', 'c': c, 'g': 'children'})
+    # user tables, including self-referencing and mutually recursive ones: resolution must end
+    names = ['s1', 's2', 's3', 's4', 's5', 'x', 'y']
+    n = 300 if tier == 'quick' else 3000
+    for _ in range(n):
+        tbl = {}
+        for k in rnd.sample(names, rnd.randint(1, 5)):
+            parts = []
+            for _ in range(rnd.randint(1, 3)):
+                parts.append(rnd.choice(names + ['div', 'p']) + rnd.choice(['', '', '.c', '[a=b]', '{t}', '*2']))
+            tbl[k] = rnd.choice(['>', '+']).join(parts)
+        ab = rnd.choice(list(tbl)) + rnd.choice(['', '.z', '>b', '*2', '+' + rnd.choice(names)])
+        c = {'snippets': tbl}
+        if rnd.random() < .3: c['options'] = {'output.reverseAttributes': True}
+        out.append({'s': ab, 'c': c, 'g': 'usertable'})
+    return out
+
+
+def oracle_C14(case, o):
+    v = []
+    if o[0] == 'internal': return ['internal-error| expand(%r, %r) raised %s' % (case['s'], case['c'], o[1])]
+    if 'alt' in case:
+        o2 = outcome(case['alt'], mkcfg(case['c']))
+        if o2 != o:
+            v.append('alias| expand(%r) = %r but expanding its definition in its place, expand(%r), gives %r  (config %r)' % (case['s'], o[1], case['alt'], o2[1], case['c']))
+    return v
+
+
+# ------------------------------------------------------------------------------------------------- C12
+def rand_layout(rnd):
+    """a random assignment of the formatting options only"""
+    o = {}
+    if rnd.random() < .3: o['output.format'] = False
+    if rnd.random() < .5: o['output.indent'] = rnd.choice(['\t', '  ', '    '])
+    if rnd.random() < .4: o['output.newline'] = rnd.choice(['\n', '\r\n'])
+    if rnd.random() < .3: o['output.baseIndent'] = rnd.choice(['  ', '\t'])
+    if rnd.random() < .4: o['output.inlineBreak'] = rnd.choice([0, 1, 2, 3, 5])
+    if rnd.random() < .3: o['output.formatLeafNode'] = True
+    if rnd.random() < .2: o['output.formatSkip'] = rnd.choice([[], ['div'], ['ul', 'p']])
+    if rnd.random() < .2: o['output.formatForce'] = rnd.choice([[], ['span'], ['em', 'a']])
+    return o
+
+
+COMMENT_RE = re.compile(r'<!--.*?-->', re.S)
+
+
+def oracle_C12(case, o):
+    from emmet.config import Config
+    if o[0] != 'ok': return ['no-output| expand(%r) -> %s %s' % (case['s'], o[0], o[1])]
+    v = []
+    base = sq(o[1])
+    # (1) any other assignment of the formatting options changes white space only
+    o2 = outcome(case['s'], mkcfg(case['alt']))
+    if o2[0] != 'ok' or sq(o2[1]) != base:
+        v.append('weave| expand(%r): formatting options %r and %r differ in more than white space: %r vs %r' % (case['s'], case['c'].get('options'), case['alt'].get('options'), o[1], o2[1]))
+    # (2) comments only add comment text
+    cc = copy.deepcopy(case['c']); cc.setdefault('options', {})['comment.enabled'] = True
+    o3 = outcome(case['s'], mkcfg(cc))
+    if o3[0] != 'ok' or sq(COMMENT_RE.sub('', o3[1])) != base:
+        v.append('comments| expand(%r) with comments enabled differs from the plain output by more than comments: %r vs %r' % (case['s'], o3[1], o[1]))
+    # (3) the self-closing style changes only the slash before `>`
+    outs = []
+    for st in ('html', 'xhtml', 'xml'):
+        c4 = copy.deepcopy(case['c']); c4.setdefault('options', {})['output.selfClosingStyle'] = st
+        o4 = outcome(case['s'], mkcfg(c4))
+        outs.append(re.sub(r'\s*/>', '>', o4[1]) if o4[0] == 'ok' else repr(o4))
+    if len(set(outs)) != 1: v.append('self-closing| expand(%r): self-closing styles differ in more than the slash: %r' % (case['s'], outs))
+    # (4) indentation = number of elements open at that point
+    opt = Config(mkcfg(case['c'])).options
+    if opt.get('output.format') and not opt.get('output.formatSkip') or (opt.get('output.format') and not any(nm in case['s'] for nm in opt.get('output.formatSkip'))):
+        nl = opt.get('output.newline'); ind = opt.get('output.indent'); bi = opt.get('output.baseIndent')
+        lines = o[1].split(nl)
+        depth = 0
+        for li, line in enumerate(lines):
+            body = line[len(bi):] if li > 0 else line
+            if li > 0:
+                if not line.startswith(bi): v.append('indent| line %d %r does not start with baseIndent %r' % (li, line, bi)); break
+                k = 0
+                while ind and body.startswith(ind): body = body[len(ind):]; k += 1
+                want = depth - 1 if body.startswith('</') else depth
+                if ind and k != want and body.strip():
+                    v.append('indent| expand(%r, %r): line %d %r is indented %d units, %d elements are open there' % (case['s'], case['c'], li, line, k, want)); break
+                if ind and k != want and not body.strip():
+                    v.append('blank-line| expand(%r, %r): white-space-only line %d %r at %d units, %d elements are open there' % (case['s'], case['c'], li, line, k, want)); break
+            for t in mk.read_html(line):
+                if t[0] == 'open' and not t[3] and t[1].lower() not in mk.VOID: depth += 1
+                elif t[0] == 'close': depth -= 1
+    return v
+
+
+# ------------------------------------------------------------------------------------------------- C15
+def lines_of(forest, sy, depth, acc):
+    """one line per element at its depth: name#id.class.class + the syntax's attribute list; `div` omitted when id / class present;
+    multi-line text one line per text line one level deeper"""
+    for el in forest:
+        ids = [m[1] for m in el['mentions'] if m[0] == 'id']; cls = [m[1] for m in el['mentions'] if m[0] == 'class']
+        attrs = []
+        for m in el['mentions']:
+            if m[0] == 'attr' and m[1] not in [a[0] for a in attrs]: attrs.append((m[1], m[2]))
+        name = el['name']
+        head = ('%' if sy == 'haml' else '') + name if not (name == 'div' and (ids or cls)) else ''
+        done = set()
+        for m in el['mentions']:          # id / class shorthands in the order they were first written
+            if m[0] == 'id' and 'id' not in done: head += '#' + ids[-1]; done.add('id')
+            elif m[0] == 'class' and 'class' not in done: head += ''.join('.' + c for c in cls); done.add('class')
+        if attrs:
+            parts = ['%s="%s"' % (n, v) for n, v in attrs]
+            if sy == 'haml': head += '(' + ' '.join(parts) + ')'
+            elif sy == 'pug': head += '(' + ', '.join(parts) + ')'
+            else: head += ' ' + ' '.join(parts)
+        void = name.lower() in mk.VOID or el['slash']
+        text = el['text']
+        if void: head += '/' if sy in ('haml', 'slim') else ''
+        if text is not None and '\n' not in text: acc.append((depth, head + ' ' + text))
+        else: acc.append((depth, head))
+        if text is not None and '\n' in text:
+            mx = max(len(x) for x in text.split('\n'))
+            for tl in text.split('\n'):
+                if sy == 'haml': acc.append((depth + 1, tl.ljust(mx) + ' |'))      # lines padded to the same width before the ` |` marker
+                else: acc.append((depth + 1, '| ' + tl))
+        lines_of(el['kids'], sy, depth + 1, acc)
+    return acc
+
+
+def oracle_C15(case, o):
+    from emmet.config import Config
+    if o[0] != 'ok': return ['no-output| expand(%r) -> %s %s' % (case['s'], o[0], o[1])]
+    opt = Config(mkcfg(case['c'])).options
+    sy = case['c']['syntax']; ind = opt.get('output.indent'); nl = opt.get('output.newline')
+    forest = mk.unroll(mk.flat(case['seq']))
+    mk.implicit_names(forest, None, [x.lower() for x in opt.get('inlineElements')])
+    want = lines_of(forest, sy, 0, [])
+    got = []
+    for line in o[1].split(nl):
+        k = 0; body = line
+        while ind and body.startswith(ind): body = body[len(ind):]; k += 1
+        got.append((k, mk.strip_fields(body).rstrip()))
+    want = [(d, t.rstrip()) for d, t in want]
+    if got != want:
+        i = next((k for k in range(min(len(got), len(want))) if got[k] != want[k]), min(len(got), len(want)))
+        return ['lines| expand(%r, %r): line %d is %r, expected %r' % (case['s'], case['c'], i, got[i] if i < len(got) else None, want[i] if i < len(want) else None)]
+    return []
+
+
+ORACLES = {'C01': oracle_C01, 'C02': oracle_C02, 'C03': oracle_C03, 'C04': oracle_C04, 'C14': oracle_C14, 'C12': oracle_C12, 'C15': oracle_C15}
 
 
 def run(case, prop):
+    if prop == 'C13':
+        o, calls = run_C13(case)
+        viol = oracle_C13(case, o, calls)
+        tags = {'gen:' + case['g']: 1, 'outcome:' + o[0]: 1, 'syntax:' + case['c'].get('syntax', '-'): 1, 'callbacks': len(calls)}
+        return line_of(o), viol[:4], tags
     o = outcome(case['s'], mkcfg(case['c']))
     viol = ORACLES[prop](case, o) if prop in ORACLES else []
     tags = {'gen:' + case['g']: 1, 'outcome:' + o[0]: 1, 'syntax:' + case['c'].get('syntax', '-'): 1}
